@@ -68,6 +68,11 @@ type Stores struct {
 	DB     walletdb.DB
 	Block  headerfs.BlockHeaderStore
 	Filter headerfs.FilterHeaderStore
+	// Ctl / files: set when the stores were opened with the fault layer
+	// (fault.go): the controller of the wrappers and the real flat files
+	// underneath them (closed by Close).
+	Ctl   *FaultCtl
+	files []headerfs.File
 }
 
 // LegacyIndex moves every hash->height entry of the header index from its
@@ -109,6 +114,7 @@ func (s *Stores) LegacyIndex(hashes []chainhash.Hash) (int, error) {
 // Close closes the database (the flat files are closed with the process /
 // garbage; headerfs exposes no Close).
 func (s *Stores) Close() {
+	s.closeFiles()
 	if s.DB != nil {
 		_ = s.DB.Close()
 		s.DB = nil
@@ -222,6 +228,13 @@ type SimPeer struct {
 	Rec      *netsim.Peer // the remote side: records what the client pushes
 	conn     *netsim.Conn
 	Services wire.ServiceFlag
+	// gone: the peer was connected when the client went down (Session.Restart).
+	gone bool
+	// done: the peer-done event was delivered for it (iofault.go).
+	done bool
+	// superseded: after a restart of the client this peer connected again as a
+	// new SimPeer; what is asserted about the peer is asserted about that one.
+	superseded bool
 }
 
 // Disconnected reports whether the client side closed the connection.
